@@ -184,7 +184,7 @@ def check_grow(chk):
         chk.expect(sum_ok, 'R05.3', 'new-pages[%s]' % cond[:60],
                    'pages is set to %r, specification: old + delta' % (wp,), site)
         ws = [e[1][2] for e in writes if e[1][1] == 'size']
-        size_ok = len(ws) == 1 and is_sym(ws[0]) and ws[0].op == '*' and PAGE in ws[0].args
+        size_ok = len(ws) == 1 and is_sym(pe.strip_casts(ws[0])) and pe.strip_casts(ws[0]).op == '*' and PAGE in pe.strip_casts(ws[0]).args
         chk.expect(size_ok, 'R05.3', 'new-size[%s]' % cond[:60], 'size is set to %r, expected pages * 65536' % (ws,), site)
         re_ev = [e for e in p.events if e[0] == 'realloc']
         if re_ev:
@@ -196,15 +196,28 @@ def check_grow(chk):
                 ptr, val, n = ms[0][1]
                 n = pe.strip_casts(n)
                 rr = unk('realloc-result')
-                tail_ok = is_sym(ptr) and ptr.op == '+' and rr in ptr.args and \
-                    any(is_sym(a) and a.op == '*' and pages in a.args and PAGE in a.args for a in ptr.args)
-                n_ok2 = is_sym(n) and n.op == '*' and delta in n.args and PAGE in n.args
+                def times_page(a, what):
+                    a = pe.strip_casts(a)
+                    return is_sym(a) and a.op == '*' and what in [pe.strip_casts(x) for x in a.args] and PAGE in a.args
+                tail_ok = is_sym(ptr) and ptr.op == '+' and rr in ptr.args and any(times_page(a, pages) for a in ptr.args)
+                n_ok2 = times_page(n, delta)
                 good = tail_ok and val == 0 and n_ok2 and names.index('realloc') < names.index('memset')
             chk.expect(good, 'R05.3', 'zero-new-tail[%s]' % cond[:60],
                        'after realloc the new pages [old*64K, +delta*64K) are not cleared by one memset (events: %r)'
                        % ([(e[0], e[1]) for e in p.events if e[0] in ('realloc', 'memset')],), site)
             chk.expect(p.events[wd[0]][1][2] == unk('realloc-result') if wd else False, 'R05.3', 'data-updated[%s]' % cond[:60],
                        'memory->data is not updated with the reallocated block', site)
+            # byte counts must not wrap: growing to 65536 pages (4 GiB, the largest memory of the format) needs 2^32 bytes
+            try:
+                env = {pages: 65535, delta: 1, maxp: 65536}
+                asked = pe.sym_eval(re_ev[0][1][1], env)
+                cleared = pe.sym_eval(ms[0][1][2], {pages: 0, delta: 65536, maxp: 65536}) if len(ms) == 1 else None
+            except (KeyError, IndexError):
+                asked = cleared = None
+            chk.expect(asked == 1 << 32 and cleared == 1 << 32, 'R05.3', 'byte-size-no-wrap[%s]' % cond[:60],
+                       'growing a memory from 65535 to 65536 pages (within a declared maximum of 65536) asks realloc for %s bytes and a grow by 65536 '
+                       'pages clears %s bytes: the byte counts are computed in 32 bits and wrap to 0 - realloc(data, 0) releases the memory, the '
+                       'existing contents are lost and later accesses use freed storage' % (asked, cleared), site + ':byte-size')
     chk.expect(n_ok >= 1 and n_fail >= 1, 'R05.3', 'paths', 'wasmMemoryGrow has %d success and %d failure paths' % (n_ok, n_fail), site)
     chk.sample(dict(rule='R05.3', paths=[dict(cond=p.cond_text(), ret=repr(p.ret),
                                              events=[e[0] + (':' + str(e[1][1]) if e[0] in ('read', 'write') else '') for e in p.events])
